@@ -193,6 +193,12 @@ func (c *credentials) authorize() (string, error) {
 		return "", err
 	}
 
+	if c.sessionAlg && c.messageQop == "" {
+		// A1 of a -sess algorithm contains the cnonce, which is only
+		// transmitted together with qop: the server could not verify.
+		return "", errDigestQopNotSupported
+	}
+
 	resp, err := c.resp()
 	if err != nil {
 		return "", err
